@@ -14,6 +14,7 @@ This is analysis of a *variant of the source*, still purely static: no libp2p co
 evidence file; it never produces a VIOLATION line (a miss is a weakness of the checker, not a violation of the property
 by /repo).  /repo itself is never modified.
 """
+import json
 import os
 import re
 import shutil
@@ -28,14 +29,66 @@ def _sync_tree(repo, dst):
                    check=True, capture_output=True)
 
 
+def _evaluate(pid, mod, tier, tree, m, name, res):
+    ctx = core.Ctx(pid, None, tier, "mutant")
+    try:
+        fp = facts.ensure_facts(config="mut", repo=tree)
+    except facts.FactError as e:
+        res["skipped"].append({"mutant": name, "reason": "mutant does not compile: " + str(e)[-300:]})
+        return
+    ctx.prog = mir.Program(fp)
+    try:
+        mod.check(ctx)
+    except mir.RuleError as e:
+        ctx.ob("anchor", "missing:" + str(e)[:120], False, msg=str(e))
+    except Exception as e:
+        ctx.ob("engine", "exception", False, msg=repr(e)[:300])
+    rx = re.compile(m["expect"])
+    bad = ["%s/%s" % (o["rule"], o["instance"]) for o in ctx.obs if not o["holds"]]
+    hit = [b for b in bad if rx.search(b)]
+    rec = {"mutant": name, "file": m.get("file") or m.get("patch"), "why": m.get("why", ""), "violated": sorted(set(bad))[:8]}
+    (res["fired"] if hit else res["missed"]).append(rec)
+
+
+def _run_patch(pid, mod, tier, tree, m, res):
+    name = m["name"]
+    if subprocess.run(["patch", "-p1", "--dry-run", "-s", "-i", m["patch"]], cwd=tree, capture_output=True).returncode != 0:
+        res["skipped"].append({"mutant": name, "reason": "patch does not apply to today's tree"})
+        return
+    subprocess.run(["patch", "-p1", "-s", "--no-backup-if-mismatch", "-i", m["patch"]], cwd=tree, capture_output=True)
+    try:
+        _evaluate(pid, mod, tier, tree, m, name, res)
+    finally:
+        subprocess.run(["patch", "-R", "-p1", "-s", "--no-backup-if-mismatch", "-i", m["patch"]], cwd=tree, capture_output=True)
+
+
 def run(pid, mod, tier="thorough"):
     muts = list(getattr(mod, "MUTANTS", []))
+    # independently written breaking changes archived under /verif/seeded/<dir>/ (meta.json names the property)
+    sd = os.path.join(core.VERIF, "seeded")
+    for d in sorted(os.listdir(sd)) if os.path.isdir(sd) else []:
+        mp = os.path.join(sd, d, "meta.json")
+        try:
+            if json.load(open(mp)).get("property") == pid:
+                muts.append({"name": "seeded/" + d, "patch": os.path.join(sd, d, "patch.diff"), "expect": r".",
+                             "why": "independently written breaking change (see seeded/%s/README.md)" % d})
+        except (OSError, ValueError):
+            continue
     res = {"fired": [], "missed": [], "skipped": []}
     if not muts:
         return res
     tree = os.path.join(facts.CACHE, "mut-tree")
     _sync_tree(facts.REPO, tree)
+    import time
+    t0 = time.time()
+    budget = float(os.environ.get("VERIF_SELFTEST_BUDGET", "1200"))
     for i, m in enumerate(muts):
+        if time.time() - t0 > budget:
+            res["skipped"].append({"mutant": m.get("name", str(i)), "reason": "self-test time budget (%ds) used up" % budget})
+            continue
+        if "patch" in m:
+            _run_patch(pid, mod, tier, tree, m, res)
+            continue
         name = m.get("name") or "%s#%d" % (os.path.basename(m["file"]), i)
         path = os.path.join(tree, m["file"])
         try:
@@ -48,24 +101,7 @@ def run(pid, mod, tier="thorough"):
             continue
         open(path, "w").write(src.replace(m["find"], m["replace"]))
         try:
-            ctx = core.Ctx(pid, None, tier, "mutant")
-            try:
-                fp = facts.ensure_facts(config="mut", repo=tree)
-            except facts.FactError as e:
-                res["skipped"].append({"mutant": name, "reason": "mutant does not compile: " + str(e)[-300:]})
-                continue
-            ctx.prog = mir.Program(fp)
-            try:
-                mod.check(ctx)
-            except mir.RuleError as e:
-                ctx.ob("anchor", "missing:" + str(e)[:120], False, msg=str(e))
-            except Exception as e:  # an engine exception on a mutant counts as fail-closed firing of 'engine'
-                ctx.ob("engine", "exception", False, msg=repr(e)[:300])
-            rx = re.compile(m["expect"])
-            bad = ["%s/%s" % (o["rule"], o["instance"]) for o in ctx.obs if not o["holds"]]
-            hit = [b for b in bad if rx.search(b)]
-            rec = {"mutant": name, "file": m["file"], "why": m.get("why", ""), "violated": sorted(set(bad))[:8]}
-            (res["fired"] if hit else res["missed"]).append(rec)
+            _evaluate(pid, mod, tier, tree, m, name, res)
         finally:
             open(path, "w").write(src)
     return res
